@@ -1,7 +1,7 @@
 (* C16 — Skip connections combine source and target inputs as configured; the builder never
    discards a connection. Generic in the number structure. The gradient clause of the property is
-   NOT proved: it is false of the code for the classes listed in known_findings.json (decided by
-   the falsifier); see DESIGN.md. *)
+   not a theorem: it was false of the code (seven classes, repaired by fix commit 5ea5be1, see
+   known_findings.json) and is decided by the finite-difference falsifier; see DESIGN.md D2. *)
 From NV Require Import Prelude Num Random Tensor Activation Objective Optimizer Layers Network.
 From NV.Theory Require Import Forward C16 C17.
 
